@@ -12,7 +12,12 @@ def run(tier):
     jobs += [("MakeTime:N=%d,T=%d" % s, J.job_maketime, {"N": s[0], "T": s[1]}) for s in sz[:2]]
     jobs += [("next:N=%d,T=%d" % s, J.job_transition, {"N": s[0], "T": s[1], "which": "next"}) for s in sz[:2]]
     jobs += [("prev:N=%d,T=%d" % s, J.job_transition, {"N": s[0], "T": s[1], "which": "prev"}) for s in sz[:2]]
-    return J.run_property("C10", tier, jobs, {"saturation": "make", "BreakTime": "break", "MakeTime": "make", "next": "next", "prev": "prev"},
+    from . import tz_ext
+    esz = [(2, 2)] if tier == "quick" else [(2, 2), (3, 2)]
+    jobs += [("ext-BreakTime:N=%d,T=%d" % s, tz_ext.job_breaktime_ext, {"N": s[0], "T": s[1]}) for s in esz]
+    jobs += [("ext-MakeTime-beyond:N=%d,T=%d" % s, tz_ext.job_maketime_ext, {"N": s[0], "T": s[1], "mode": "beyond"}) for s in esz]
+    return J.run_property("C10", tier, jobs, {"saturation": "make", "BreakTime": "break", "MakeTime": "make", "next": "next", "prev": "prev",
+                                              "ext-BreakTime": "break", "ext-MakeTime": "make"},
         "SMT: every signed-overflow, bounds, assert() and civil-arithmetic-premise obligation on every path, for all int64 instants / all civil seconds; exact saturation at both ends.",
-        ["tables N x T in %s; t any int64 (min(), max() included); cs any civil second (civil_second::min()/max() included)" % sz])
+        ["tables N x T in %s; t any int64 (min(), max() included); cs any civil second (civil_second::min()/max() included); extended tables %s" % (sz, esz)], ext=True)
 if __name__ == "__main__": sys.exit(run(sys.argv[1] if len(sys.argv) > 1 else "quick"))
